@@ -61,7 +61,7 @@ pub fn start_tokio(threads: usize, _timeout: bool, cors_kind: u8, ip: &str) -> R
 
 pub fn run(ctx: &Ctx) {
     ctx.rule("tokio runtime: the same connection scripts (methods x targets x Connection x version x bodies x malformed kinds, per-request / byte-wise / random segmentation, sequential or pipelined boundaries), reference connection model and probing client as the threaded check, against the tokio App with async handlers (no connection timeout there, so no idle steps / 408); plus handler-panic recovery (after N..N+2 panicking handlers, N simultaneous keep-alive connections are all answered)");
-    let cases = ctx.tier.pick(400u32, 20_000u32);
+    let cases = ctx.tier.pick(800u32, 20_000u32);
     let nshards = 16usize;
     crate::engine::shards(nshards, |i| {
         let ip = format!("127.0.5.{}", 1 + i);
